@@ -471,6 +471,16 @@ package tcell
 //@   calls [same-event] call("*selsend:evch", sent) ==> sent == ev
 //@   modifies nothing
 
+// Fini closes the quit channel at most once over the life of the screen: only a call that finds the screen not yet
+// finished closes it (a second Fini is a no-op for the channel; closing twice is a runtime fault).
+//@ func (*simscreen).Fini
+//@   arith math
+//@   requires cbwf(&s.back)
+//@   ensures [finished] s.fini
+//@   ensures [second-is-noop] old(s.fini) ==> calls("*close:quit") == 0
+//@   ensures [at-most-once] calls("*close:quit") <= 1
+//@   modifies s.fini, s.back.w, s.back.h, s.back.cells, s.physw, s.physh, s.front, s.Mutex
+
 // what NewEventKey stores (its own contract, C03, as spec functions)
 //@ spec nekKey(k Key, ch rune) Key = (k == KeyRune && (ch < ' ' || ch == 0x7f)) ? Key(ch) : k
 //@ spec nekMod(k Key, ch rune, mod ModMask) ModMask =
@@ -834,6 +844,17 @@ package tcell
 //@     invariant [i] -1 <= rangeindex && rangeindex < len(evs)
 //@     decreases len(evs) - rangeindex
 //@   modifies buf.off, buf.lastRead, buf.buf, t.escaped, t.buttondn, t.Mutex
+
+// resize never takes anything off the application's queue: a resize notification that finds the queue full is the
+// only thing that may be dropped (the next Size() reports the new size anyway); events already queued are never
+// evicted to make room, and the main loop is never parked here.
+//@ func (*tScreen).resize
+//@   arith math
+//@   requires !isNil(t.tty) && cbwf(&t.cells)
+//@   calls [never-evicts] call("*recv:eventQ", got) ==> false
+//@   calls [never-parks] call("*select:blocking*", a) ==> false
+//@   ensures [one-offer] calls("*select:nonblocking:send:eventQ") <= 1
+//@   modifies t.cx, t.cy, t.cells.w, t.cells.h, t.cells.cells, t.cells.cells[*], t.w, t.h
 
 // PostEvent: nil exactly when the event was queued, ErrEventQFull exactly when it was not.
 //@ func (*baseScreen).PostEvent
